@@ -51,6 +51,12 @@ def eckeygen (args : List String) : String :=
     | none => "bad-op"
   | _ => "bad-op"
 
+/-- judge op of ./check: `eckeyok <d> <x> <y>`: the statement of C03 about a generated key pair -/
+def eckeyok (args : List String) : String :=
+  match args.mapM natOf with
+  | some [d, x, y] => if 1 ≤ d ∧ d ≤ n - 2 ∧ enc (smul d G) = (x, y) then "true" else "false"
+  | _ => "bad-op"
+
 def uidOf (s : String) : Option Bytes :=
   match ofHex s with
   | some [] => some defaultUid
@@ -125,7 +131,33 @@ def encLoop (px py : Nat) (msg : Bytes) (ord : Order) : Nat → Bytes → Option
 
 def ordOf (s : String) : Order := if s = "c1c2c3" then .c1c2c3 else .c1c3c2
 
-def sm2enc (args : List String) : String :=
+/-- judge ops (used by ./check when the code's signature differs from the model's): does the SPEC accept what the
+    code produced, under the public key [d]G?  `sm2signok <d> <uid> <msg> <r> <s>`, `sm2signderok <d> <msg> <sig>` -/
+def sm2signok (args : List String) : String :=
+  match args with
+  | [d, uid, msg, r, s] =>
+    match natOf d, uidOf uid, ofHex msg, natOf r, natOf s with
+    | some d, some uid, some msg, some r, some s =>
+      let (px, py) := enc (smul d G)
+      if uid.length < 8192 ∧ verify px py uid msg r s then "true" else "false"
+    | _, _, _, _, _ => "bad-op"
+  | _ => "bad-op"
+
+def sm2signderok (args : List String) : String :=
+  match args with
+  | [d, msg, sig] =>
+    match natOf d, ofHex msg, ofHex sig with
+    | some d, some msg, some sig =>
+      let (px, py) := enc (smul d G)
+      match Spec.DER.decSig sig with
+      | some (r, s) => if r < 0 ∨ s < 0 then "false" else if verify px py defaultUid msg r.toNat s.toNat then "true" else "false"
+      | none => "false"
+    | _, _, _ => "bad-op"
+  | _ => "bad-op"
+
+def sm2enc (args0 : List String) : String :=
+  -- an optional sixth argument (the private key, for the judge op of ./check) is ignored
+  let args := if args0.length = 6 then args0.take 5 else args0
   match args with
   | [x, y, mode, msg, rnd] =>
     match natOf x, natOf y, ofHex msg, ofHex rnd with
@@ -210,9 +242,11 @@ def sm2Dispatch (toks : List String) : Option String :=
   match toks with
   | "ecsmul" :: r => some (ecsmul r) | "ecbase" :: r => some (ecbase r) | "ecadd" :: r => some (ecadd r)
   | "ecdbl" :: r => some (ecdbl r) | "econ" :: r => some (econ r) | "eckeygen" :: r => some (eckeygen r)
+  | "eckeyok" :: r => some (eckeyok r)
   | "sm2sign" :: r => some (sm2sign r) | "sm2signder" :: r => some (sm2signder r)
   | "sm2verify" :: r => some (sm2verify r) | "sm2verifyder" :: r => some (sm2verifyder r)
   | "sm2enc" :: r => some (sm2enc r) | "sm2dec" :: r => some (sm2dec r)
+  | "sm2signok" :: r => some (sm2signok r) | "sm2signderok" :: r => some (sm2signderok r)
   | "sm2kex" :: r => some (sm2kex r) | "sm2kexbad" :: r => some (sm2kexbad r)
   | _ => none
 
